@@ -177,6 +177,16 @@ def denotation_f1(ctx, res, progs, cap=3000):
         return []
     inf = ctx.model(["(inf1 %s)" % c[3] for c in cases])
     f1 = [c for c, x in zip(cases, inf) if x == "true"]
+    # Sem.all_valid enumerates derived rows in design order: it needs every depended-on factor listed
+    # before the derived factor (the theorem does not); such records are counted and skipped here
+    ordered = []
+    for c in f1:
+        rec = flatmod.flat_of_block(c[2])
+        if all(win is None or all(d < i for d in win[0]) for i, (_n, _h, _l, win, _c) in enumerate(rec[0])):
+            ordered.append(c)
+        else:
+            res.extra["denote_skipped_unordered"] = res.extra.get("denote_skipped_unordered", 0) + 1
+    f1 = ordered
     if not f1:
         return []
     outs = ctx.model(["(codesem-all %s)" % c[3] for c in f1])
